@@ -3,7 +3,7 @@
 # runs the checks against the scratch worktree (GFO_REPO) without touching /repo
 wt=$1; shift
 checks=${@:-C01 C02 C03 C04 C05 C06 C07 C08 C09 C10 C11 C12 C13 C14 C15 C16 C17 C18 C19 C20}
-cd /verif
+cd ${VDIR:-/verif}
 for c in $checks; do
   out=$(GFO_REPO=$wt VERIF_NO_EVIDENCE=1 VERIF_SEED=${VERIF_SEED:-0} timeout 1500 python3 harness/check.py $c --tier quick 2>&1 | grep -v "^KNOWN" )
   v=$(echo "$out" | grep -c "^VIOLATION")
